@@ -94,6 +94,70 @@ def make_prov(I, exprs_json, n_units, n_cands=2, keys=None, lazy=False, ckeys=No
     return P.Provenance(es), units, es
 
 
+def open_units(I, keys, n_cands=2, ckeys=None):
+    """an OPEN (unfrozen) unit set `Units(candidates=...)` with NO unit created yet, behind a UView: unit keys[pos] is registered by the library on its
+    first mention (`view[pos]`), so the library's position of a unit is its rank in the order of first mention - NOT pos - and units may be first
+    mentioned long after a container over the set was constructed. Use `values_for` to lay an assignment out in the container's own unit order."""
+    P = I["provenance"]
+    return UView(P.Units(candidates=(n_cands if ckeys is None else list(ckeys))), keys, ckeys)
+
+
+def values_for(container_units, keys, a):
+    """assignment a (candidate per JSON position) as the value list a caller passes to query / eval of a container whose public `units` sequence is
+    container_units (one value per unit the container knows, in the container's order)"""
+    pos = {k: i for i, k in enumerate(keys)}
+    return [a[pos[k]] for k in container_units]
+
+
+def flat_lits(e):
+    """the literals [unit, candidate] of a flat JSON formula in the order gen.build_expr mentions them"""
+    if "eq" in e:
+        return [e["eq"]]
+    if "conj" in e:
+        return list(e["conj"])
+    return [l for cj in e["disj"] for l in cj]
+
+
+def first_mention_normal(exprs):
+    """(exprs', n): the flat JSON formulas with their units renamed to the rank of their first mention (reading the list front to back), n = number
+    of units mentioned. Over an OPEN unit set the library gives a unit exactly this rank as its position, so for exprs' JSON position = library
+    position even when the formulas reach the library one by one."""
+    rank = {}
+    for e in exprs:
+        for u, _c in flat_lits(e):
+            rank.setdefault(u, len(rank))
+
+    def ren(e):
+        if "eq" in e:
+            return {"eq": [rank[e["eq"][0]], e["eq"][1]]}
+        if "conj" in e:
+            return {"conj": [[rank[u], c] for u, c in e["conj"]]}
+        return {"disj": [[[rank[u], c] for u, c in cj] for cj in e["disj"]]}
+    return [ren(e) for e in exprs], len(rank)
+
+
+def make_prov_late(I, exprs_json, n_units, split, n_cands=2, keys=None, ckeys=None):
+    """real Provenance over an OPEN unit set (`Units(candidates=...)`, no unit declared): the container is constructed from the first `split` >= 1
+    formulas and the remaining ones are appended / inserted at the end afterwards, each built only then - so a unit that the first `split` formulas
+    do not mention is registered by the library AFTER the container was constructed. exprs_json must be in first-mention-normal form with all
+    n_units units mentioned (see first_mention_normal); then position = library position, which is asserted."""
+    import gen
+    P = I["provenance"]
+    keys = list(range(n_units)) if keys is None else list(keys)
+    units = open_units(I, keys, n_cands, ckeys)
+    es = [gen.build_expr(P, units, e) for e in exprs_json[:split]]
+    prov = P.Provenance(es)
+    for j, e in enumerate(exprs_json[split:]):
+        x = gen.build_expr(P, units, e)
+        es.append(x)
+        if j % 2 == 0:
+            prov.append(x)
+        else:
+            prov.insert(len(prov), x)
+    assert list(units.units.units) == keys, "harness: formulas not in first-mention-normal form"
+    return prov, units, es
+
+
 def truth_table_impl(prov, n_units, n_cands=2):
     from spec import assignments
     out = []
@@ -249,3 +313,22 @@ def rand_slice(rng, n):
 
 def slice_json(sl):
     return [sl.start, sl.stop, sl.step]
+
+
+def check_translated_query(ctx, prov, a, mask, idx, case):
+    """Provenance.query TRANSLATED from this tree's source (lean/GenQ via genqdriver), run on the container's raw array and the assignment `a`,
+    against what the implementation returned (`mask`: list of bools, `idx`: list of row positions).  A disagreement means the translator / Ds.Np
+    misrepresent the code (the implementation is compared with the definition elsewhere)."""
+    if getattr(ctx, "genqdriver", None) is None:
+        return
+    import numpy as _np
+    data = _np.asarray(prov.data)
+    if data.ndim != 4 or data.shape[3] != 2:
+        return
+    req = {"r": int(data.shape[0]), "d": int(data.shape[1]), "c": int(data.shape[2]), "data": data.tolist(), "n": int(prov.num_units), "values": [int(x) for x in a]}
+    m = ctx.genq(dict(req, idx=False))
+    i = ctx.genq(dict(req, idx=True))
+    ctx.dist["translated_query_runs"] += 1
+    if m is None or i is None or m.get("ok") != [bool(x) for x in mask] or i.get("ok") != [int(x) for x in idx]:
+        ctx.mismatch("Provenance.query translated from the source (harness/translate_query.py -> lean/GenQ) does not reproduce the implementation", dict(case, assignment=list(a)),
+                     impl=dict(mask=mask, idx=idx), model=dict(mask=m, idx=i), failing_input=False, broken="corr:GenQ.query_mask / query_idx (translator / Ds.Np)")
